@@ -116,7 +116,7 @@ func clientExchange(w *World) *ssa.Function {
 	_, wr := framingFns(w, yubiPkg)
 	for _, f := range w.methodsOf(yubiPkg, "client") {
 		ps, rs := f.Signature.Params(), f.Signature.Results()
-		if ps.Len() == 1 && rs.Len() == 2 && typeIs(ps.At(0).Type(), "[]byte") && typeIs(rs.At(0).Type(), "[]byte") {
+		if ps.Len() == 1 && rs.Len() == 2 && typeIs(ps.At(0).Type().Underlying(), "[]byte") && typeIs(rs.At(0).Type().Underlying(), "[]byte") {
 			for _, call := range callsIn(f) {
 				if wr != nil && call.Common().StaticCallee() == wr {
 					return f
